@@ -271,6 +271,13 @@ EXPR_WRAPPERS = {
     ('solution_node.rs::next_solution', 'body == Goal::Nil'): 'goal_is_nil(&body)',
     # Vec index + derived Clone of Goal: panics on a not(..) / time(..) without operand (the parsers do not build one); a panic is no return
     ('goal.rs::make_solution_node', 'goals[0].clone()'): 'first_goal_clone(goals)',
+    # print: ToString for String, str::split + collect, String += (see spec/print.rs)
+    ('built_in_print.rs::format_for_print_pred', 'the_strings[0].to_string()'): 'string_dup(&the_strings[0])',
+    ('built_in_print.rs::format_for_print_pred', 'let split: Vec<_> = format_string.split(FORMAT_SPECIFIER).collect();'): 'let split: Vec<&str> = str_split_collect(&format_string, FORMAT_SPECIFIER);',
+    ('built_in_print.rs::format_for_print_pred', 'out += &the_strings[j];'): 'str_append(&mut out, &the_strings[j]);',
+    ('built_in_print.rs::format_for_print_pred', 'out += split[i];'): 'str_append_str(&mut out, split[i]);',
+    ('built_in_print.rs::next_solution_print', 'format!("{}", ground_term)'): 'disp_term(ground_term)',
+    ('built_in_print.rs::next_solution_print', 'format!("{}", term)'): 'disp_term(&term)',
     # Vec index: panics when `=` has fewer than two operands (the parsers build two); a panic is no return
     ('built_in_predicates.rs::next_solution_bip', '&terms[0]'): 'vec_at(terms, 0)',
     ('built_in_predicates.rs::next_solution_bip', '&terms[1]'): 'vec_at(terms, 1)',
@@ -418,6 +425,30 @@ class FnEmitter:
             # clauses proved in the function's own unit that callers do not need (not exported to stubs,
             # so that units which only call the function need not include the vocabulary they use)
             sigblock = sigblock + block_text('sig-prove-extra') + block_text('sig-decreases')
+        # several sections contribute clauses: Verus wants all `requires` before all `ensures` before `decreases`
+        def regroup(block):
+            groups = {'requires': [], 'ensures': [], 'decreases': []}
+            cur = None
+            pre = []
+            for l, o in block:
+                kw = l.strip()
+                if kw in groups:
+                    cur = kw
+                    continue
+                if cur is None:
+                    pre.append((l, o))
+                else:
+                    groups[cur].append((l, o))
+            res = list(pre)
+            for kw in ('requires', 'ensures', 'decreases'):
+                if groups[kw]:
+                    res.append(('    ' + kw, {'k': 'gen', 'fn': key}))
+                    res.extend(groups[kw])
+            return res
+        kws = [l.strip() for l, o in sigblock if l.strip() in ('requires', 'ensures', 'decreases')]
+        order = {'requires': 0, 'ensures': 1, 'decreases': 2}
+        if len(kws) != len(set(kws)) or any(order[kws[i]] > order[kws[i + 1]] for i in range(len(kws) - 1)):
+            sigblock = regroup(sigblock)
         edits.append((toks[bopen].start, toks[bopen].start, ('\n', sigblock, ''), 'block'))
 
         if self.mode == 'stub':
@@ -470,6 +501,15 @@ class FnEmitter:
                             rule, rep = MACRO_RULES[t.text]
                             if t.text == 'print' and fname not in self.heap_fns:
                                 raise Undecided('unsupported construct: print! outside a heap function in %s' % key)
+                            if t.text == 'print':
+                                # print!("{}", E) keeps its text: verif_print_text(&(E), ..)
+                                inner = [i for i in range(j2 + 1, cl) if toks[i].kind not in ('ws', 'comment', 'doc')]
+                                if len(inner) >= 3 and toks[inner[0]].kind == 'str' and toks[inner[0]].text == '"{}"' and toks[inner[1]].text == ',':
+                                    edits.append((t.start, toks[inner[1]].end, 'verif_print_text(&(', None))
+                                    edits.append((toks[cl].start, toks[cl].end, '), Tracked(heap))', None))
+                                    self.counts['R16'] = self.counts.get('R16', 0) + 1
+                                    k = inner[1] + 1
+                                    continue
                             if t.text == 'panic' and con.opts.get('panics') == 'diverge':
                                 # contract option `[opt panics = diverge]`: the function's claims are about calls that return;
                                 # a panic! is a call that does not (reported in the evidence as R2d)
